@@ -155,12 +155,27 @@ def rot_rules(chk):
                derived="items %s" % (None if rt.items is None else len(rt.items)), loc=fs.loc())
 
 
+def _signal_loops(fi):
+    """loops over the cluster's signals: `for i in range(len(self.signals))`, or over a local list made from self.signals
+    (`signals = list(self.signals.values())`; `for i, sig in enumerate(signals)`)"""
+    alias = {"self.signals"}
+    for n in ast.walk(fi.node):
+        if isinstance(n, ast.Assign) and len(n.targets) == 1 and isinstance(n.targets[0], ast.Name) and "self.signals" in ast.unparse(n.value):
+            alias.add(n.targets[0].id)
+
+    def over(it):
+        t = ast.unparse(it)
+        names = {x.id for x in ast.walk(it) if isinstance(x, ast.Name)}
+        return ("self.signals" in t or bool(names & alias)) and ("range" in t or "enumerate" in t)
+    return [n for n in ast.walk(fi.node) if isinstance(n, ast.For) and over(n.iter)]
+
+
 def cluster_rules(chk):
     P = chk.P
     ci = P.cls(M + "Cluster")
     for mname in sorted(ci.methods):
         fi = ci.methods[mname]
-        loops = [n for n in ast.walk(fi.node) if isinstance(n, ast.For) and "self.signals" in ast.unparse(n.iter) and "range" in ast.unparse(n.iter)]
+        loops = _signal_loops(fi)
         if not loops:
             continue
         c = "eqsig/multiple.py:Cluster.%s" % mname
@@ -203,7 +218,12 @@ def cluster_rules(chk):
                                derived="index %s" % ("depends on the loop variable" if ok else
                                                      ("is the constant %r" % idx.const if (idx is not None and idx.has_const()) else "does not depend on the loop variable")),
                                loc=e.loc, stmt=e.stmt, detail="with three signals, or master 1, the wrong signal is adjusted" if not ok else None)
-                    if not sel:
+                    elem_loops = [lp for lp in loops if isinstance(lp.iter, ast.Call) and ast.unparse(lp.iter.func) == "enumerate" and
+                                  isinstance(lp.target, ast.Tuple) and len(lp.target.elts) == 2]
+                    if not sel and elem_loops:
+                        chk.ob("R-LOOPVAR", c + "{enumerate}", "the signal treated in the body is the element of the enumeration itself", True,
+                               derived="for %s in %s" % (ast.unparse(elem_loops[0].target), ast.unparse(elem_loops[0].iter)), loc=fi.loc(elem_loops[0]))
+                    elif not sel:
                         chk.ob("R-LOOPVAR", c, "the loop selects a signal", False, derived="no signal_by_index call in the loop", loc=fi.loc(), inconclusive=True)
                 else:
                     writes = [e for e in I.events if ((e.kind == "call" and e.callee.endswith(("reset_values", "butter_pass", "remove_poly", "add_constant")))
@@ -218,7 +238,7 @@ def cluster_rules(chk):
     from ..defuse import loop_carried
     for mname in sorted(ci.methods):
         fi = ci.methods[mname]
-        loops = [n for n in ast.walk(fi.node) if isinstance(n, ast.For) and "self.signals" in ast.unparse(n.iter) and "range" in ast.unparse(n.iter)]
+        loops = _signal_loops(fi)
         for lp in loops:
             car = loop_carried(lp)
             chk.ob("R-LOOPCARRY", "eqsig/multiple.py:Cluster.%s{signal loop}" % mname, "no state is carried between signals (every variable read in an "
@@ -241,12 +261,24 @@ def cluster_rules(chk):
                 p.t.get(((vals[0], Fraction(1)),)) == 1 and p.t.get(((slave[0], Fraction(1)),)) == -1 and p.t.get(((mast[0], Fraction(1)),)) == 1
             chk.ob("R-MASTER", c + "{correction}", "new values = values - slave_average + master_average", ok, derived=p.canon(), loc=fi.loc(rv[0]),
                    stmt=norm_stmt(rv[0]))
-            k0 = sorted((k.arg, ast.unparse(k.value)) for k in gsa[0].keywords)
-            k1 = sorted((k.arg, ast.unparse(k.value)) for k in gsa[1].keywords)
+            dicts = {n.targets[0].id: n.value for n in ast.walk(fi.node) if isinstance(n, ast.Assign) and len(n.targets) == 1 and
+                     isinstance(n.targets[0], ast.Name) and isinstance(n.value, ast.Dict)}
+
+            def kws(call):          # keyword arguments, with `**d` of a dictionary literal bound to a local expanded
+                out = []
+                for k in call.keywords:
+                    if k.arg is None and isinstance(k.value, ast.Name) and k.value.id in dicts and \
+                            all(isinstance(x, ast.Constant) for x in dicts[k.value.id].keys):
+                        out.extend((x.value, ast.unparse(v)) for x, v in zip(dicts[k.value.id].keys, dicts[k.value.id].values))
+                    else:
+                        out.append((k.arg, ast.unparse(k.value)))
+                return sorted(out, key=repr)
+            k0, k1 = kws(gsa[0]), kws(gsa[1])
             chk.ob("R-MASTER", c + "{window}", "both averages use the same (start, end) window", k0 == k1 and {"start", "end"} <= {k for k, _ in k0},
                    derived="%s vs %s" % (k0, k1), loc=fi.loc(gsa[0]))
-            chk.ob("R-MASTER", c + "{master source}", "the master average is taken from signal_by_index(self.master_index)", bool(mast) and
-                   "signal_by_index(self.master_index)" in mast[0], derived="%s" % mast, loc=fi.loc())
+            chk.ob("R-MASTER", c + "{master source}", "the master average is taken from the signal at self.master_index", bool(mast) and
+                   ("signal_by_index(self.master_index)" in mast[0] or "self.signals.values())[self.master_index]" in mast[0] or
+                    "self.signals.items())[self.master_index][1]" in mast[0]), derived="%s" % mast, loc=fi.loc())
             same_sig = bool(slave) and bool(vals) and slave[0].split(".get_section_average")[0] == vals[0][:-len(".values")]
             chk.ob("R-MASTER", c + "{same signal}", "the average is measured on the signal that is corrected", same_sig, derived="%s / %s" % (slave, vals),
                    loc=fi.loc())
@@ -370,11 +402,23 @@ def lag_rules(chk, fi):
         return
     norm = Normaliser()
     infos = []
+    # windows hoisted out of the lag loops (bm_head = bm[0:-steps], bound once) stand for their definition
+    cnt = {}
+    for n in ast.walk(fi.node):
+        if isinstance(n, ast.Name) and isinstance(n.ctx, ast.Store):
+            cnt[n.id] = cnt.get(n.id, 0) + 1
+    hoisted = {}
+    for n in ast.walk(fi.node):
+        if isinstance(n, ast.Assign) and len(n.targets) == 1 and isinstance(n.targets[0], ast.Name) and cnt.get(n.targets[0].id) == 1 and \
+                isinstance(n.value, ast.Subscript) and isinstance(n.value.value, ast.Name) and isinstance(n.value.slice, ast.Slice) and \
+                not any(n is x for il in inner for x in ast.walk(il)):
+            hoisted[n.targets[0].id] = n.value
     for il in inner:
         iv = il.target.id
         rng = [norm.poly(a).canon() for a in il.iter.args]
         wins = {}
-        for n in ast.walk(il):
+        nodes = list(ast.walk(il)) + [hoisted[x.id] for x in ast.walk(il) if isinstance(x, ast.Name) and isinstance(x.ctx, ast.Load) and x.id in hoisted]
+        for n in nodes:
             if isinstance(n, ast.Subscript) and isinstance(n.value, ast.Name) and isinstance(n.slice, ast.Slice) and isinstance(n.ctx, ast.Load):
                 lo = norm.poly(n.slice.lower).canon() if n.slice.lower is not None else "0"
                 hi = norm.poly(n.slice.upper).canon() if n.slice.upper is not None else "end"
